@@ -5,7 +5,7 @@ import os
 # property -> rules deciding its structural clauses (DESIGN.md section 4)
 PROPS = {
     'C01': ['DISPATCH', 'ACDUAL', 'FINCHK', 'SYMIDX', 'ORDTOTAL', 'FRAMERESET', 'MERGE', 'CACHELIFE', 'SIBLING', 'ERASER', 'FORWARD', 'KEYFIELDS', 'QUEUEENDS', 'CLIOPT', 'FLAGRESET', 'DRAIN', 'INSETLABEL', 'TUPLEPOS'],
-    'C02': ['UNIONCONTRIB', 'PRODUCT', 'WORKLIST', 'COW', 'FORWARD', 'UNIONTRANSL', 'ACCRET', 'SCRATCHRESET', 'NULLPARAM', 'TENTATIVE', 'REINDEXALL', 'ALPHASRC', 'DRAIN', 'STATICSTATE'],
+    'C02': ['UNIONCONTRIB', 'PRODUCT', 'WORKLIST', 'COW', 'FORWARD', 'UNIONTRANSL', 'ACCRET', 'SCRATCHRESET', 'NULLPARAM', 'TENTATIVE', 'REINDEXALL', 'ALPHASRC', 'DRAIN', 'STATICSTATE', 'SHAREID'],
     'C03': ['SIZEEQ', 'WORKLIST', 'DRAIN', 'COW', 'FORWARD', 'COUNTGUARD', 'USEMOVE', 'ACCRET', 'KEPTRULES', 'COLLECTALL', 'ALPHASRC', 'COPYALL'],
     'C04': ['KIND', 'SIMMAP', 'COPYALL', 'LOOPBOUND', 'TUPLEPOS', 'FORWARD', 'KEYFIELDS', 'CLIOPT', 'INSETLABEL', 'PREPASS', 'USEDSTATES', 'REFSTABLE'],
     'C05': ['SIMMAP', 'KIND', 'LOOPBOUND', 'DRAIN', 'WORKLIST', 'SIZEEQ', 'COW', 'FORWARD', 'ACCRET', 'INSETLABEL', 'COPYALL', 'USEDSTATES', 'ALPHASRC'],
@@ -13,8 +13,8 @@ PROPS = {
     'C07': ['DISPATCH', 'ACDUAL', 'FINCHK', 'MERGE', 'PARALLEL', 'COLLECTALL', 'CACHELIFE', 'SIBLING', 'FORWARD', 'QUEUEENDS', 'CLIOPT', 'SCRATCHRESET', 'GENPRE', 'DRAIN', 'FLAGRESET', 'TUPLEPOS', 'CANON', 'UNIONCONTRIB'],
     'C08': ['UNIONCONTRIB', 'PRODUCT', 'WORKLIST', 'DRAIN', 'INIT', 'COLLECTALL', 'ARITY', 'TUPLEPOS', 'LOADROLE', 'FORWARD', 'USEMOVE', 'UNIONTRANSL', 'ACCRET', 'SCRATCHRESET', 'NULLPARAM', 'REINDEXALL', 'BACKTRACK', 'CANON'],
     'C09': ['DISPATCH', 'ACDUAL', 'FINCHK', 'MEMO', 'HASHEQ', 'ORDTOTAL', 'FORWARD', 'ADDRKEY', 'QUEUEENDS', 'CLIOPT', 'FLAGRESET', 'DRAIN', 'ITERINVAL', 'CONGRMATCH', 'REFSTABLE', 'OWNKEY'],
-    'C10': ['UNIONCONTRIB', 'PRODUCT', 'PAIRFIELD', 'FINCHK', 'WORKLIST', 'DRAIN', 'PARAMPATH', 'COW', 'FORWARD', 'NFAOPS', 'UNIONTRANSL', 'ACCRET', 'SCRATCHRESET', 'COLLECTALL', 'NULLPARAM', 'REINDEXALL', 'ALPHASRC', 'OWNKEY'],
-    'C11': ['COW', 'CLEARALL', 'HASHCONS', 'CACHELIFE', 'ALPHASRC', 'DISPATCH', 'COPYALL', 'STATICSTATE'],
+    'C10': ['UNIONCONTRIB', 'PRODUCT', 'PAIRFIELD', 'FINCHK', 'WORKLIST', 'DRAIN', 'PARAMPATH', 'COW', 'FORWARD', 'NFAOPS', 'UNIONTRANSL', 'ACCRET', 'SCRATCHRESET', 'COLLECTALL', 'NULLPARAM', 'REINDEXALL', 'ALPHASRC', 'OWNKEY', 'SHAREID'],
+    'C11': ['COW', 'CLEARALL', 'HASHCONS', 'CACHELIFE', 'ALPHASRC', 'DISPATCH', 'COPYALL', 'STATICSTATE', 'SHAREID'],
     'C13': ['TEXT', 'LOADROLE', 'PARAMPATH', 'PAIRFIELD', 'FORWARD', 'SCRATCHRESET', 'NOTHROW', 'COLLECTALL', 'DRAIN', 'BACKTRACK', 'COPYALL', 'REFCNT', 'STATICSTATE', 'NOREGEX'],
     'C12': ['COW', 'HASHCONS', 'ITER', 'NONEMPTY', 'CLEARALL', 'PARAMPATH', 'USEDSTATES', 'COPYALL', 'ORDTOTAL'],
     'C14': ['KIND', 'COW', 'FORWARD', 'SCRATCHRESET', 'HASHCONS', 'REINDEXALL', 'ALPHASRC', 'SIZEEQ'],
@@ -29,6 +29,7 @@ PROPS = {
 # (property, rule) -> regex on the repo-relative file: only sites in matching files are attributed to that
 # property (rule health — floors, anchors — is always judged on all sites)
 FILTER = {
+    ('C02', 'SHAREID'): r'explicit_tree', ('C10', 'SHAREID'): r'explicit_finite', ('C11', 'SHAREID'): r'explicit_',
     ('C07', 'UNIONCONTRIB'): r'bdd_',   # the simulation handed to the BDD inclusion is computed on the union of the operands
     ('C01', 'DISPATCH'): r'explicit_tree_incl\.cc|aut_base\.hh',
     ('C01', 'ACDUAL'): r'explicit_tree_incl|down_tree_|tree_incl_down|antichain',
